@@ -346,7 +346,9 @@ class Schema:
         cond = self.texpr(('prim', 'Bool'), env, 1)
         F = r.choice([['if', cond, f1, f2], ['if', cond, f2, f1], ['mkset', f1, f2], f1, ['mkset', f1], ['if', cond, ['mkset', f1], ['mkset', f2]]])
         opt = self.optional_paths(env)
-        guards = [['in', E, F], ['in', E, F], ['in', E, F], ['is', E, S(t1)], ['isIn', E, S(t1), f2], ['eq', E, f1], ['ne', E, f1],
+        # sets of entities of unrelated types can still be EQUAL: both may be empty
+        sa_, sb_ = self.texpr(('set', ('ent', t1)), env, 1), self.texpr(('set', ('ent', t2)), env, 1)
+        guards = [['eq', sa_, sb_], ['not', ['ne', sa_, sb_]], ['eq', sa_, ['mkset']], ['in', E, F], ['in', E, F], ['in', E, F], ['is', E, S(t1)], ['isIn', E, S(t1), f2], ['eq', E, f1], ['ne', E, f1],
                   ['not', ['in', E, F]], ['in', f1, F], ['or', ['in', E, f1], ['in', E, f2]],
                   # tags / attributes of a union of entity types (permissive mode): present in one member type only
                   ['hasTag', ['if', cond, f1, f2], lit(gen.vstr('k'))], ['hasTag', ['if', cond, f2, f1], lit(gen.vstr('t'))],
